@@ -34,7 +34,10 @@ class G:
     # ---- expressions -------------------------------------------------------------------------
     def expr(self, tilde=True, at=True):
         k = self.mark()
-        forms = [f"k{k}()", f"{{ k{k}() }}" if False else f"k{k}(1, 2)"]
+        forms = [f"k{k}()", f"k{k}(1, 2)"]
+        if self.chance(0.08):
+            # a literal as the whole expression; suffixed / oversized / non-integer literals are not member designations
+            return self.pick([f"{k}u8", f"{k}i64", f"{k}usize", "10000000000", f"{k}.5", f"{k}f32", f"'{chr(97 + k % 26)}'", f'"s{k}"', "true", f"-{k}", f"0x{k:x}u16", f"b'{chr(97 + k % 26)}'"])
         if tilde:
             forms += [f"k{k}(~)", f"~.k{k}()", f"~ + k{k}", f"(~, k{k}).0", f"[~, k{k}][0]", f"k{k}(&~).clone()"]
         if at:
@@ -88,6 +91,10 @@ def struct_basic(g, n_cp=None, shape=None, fields=None, rich=True):
     r = g.r
     n_cp = n_cp or r.choice([1, 1, 2, 2, 3])
     cps = r.sample(COUNTERPARTS, n_cp)
+    if n_cp >= 2 and g.chance(0.25):
+        # counterparts that differ only in generic arguments or only in their leading path
+        cps[:2] = g.pick([["G<i32>", "G<u8>"], ["m::C", "n::C"], ["Q<'x, u8>", "Q<'y, u8>"], ["H::<u8>", "H::<i8>"]])
+        cps = [c for i, c in enumerate(cps) if c not in cps[:i]]
     shape = shape or r.choice(["named", "named", "tuple"])
     it = Item("struct", "S", shape=shape)
     it.attrs = g.trait_set(cps)
@@ -201,6 +208,15 @@ def struct_children(g, n_cp=None):
             f.attrs.append(g.member_map(cps, named_target=(shape == "named"), idx=i))
         it.fields.append(f)
 
+    # nested structs that only path-addressed ghosts fill (no #[child] field maps into them)
+    ghost_only = []
+    if shape == "named" and g.chance(0.3):
+        for _ in range(r.randint(1, 4)):
+            base = r.choice([""] + paths)
+            seg = f"q{g.mark()}"
+            ghost_only.append(f"{base}.{seg}" if base else seg)
+        paths = paths + ghost_only
+
     def cp_entries():
         # generic arguments in turbofish form: the path is also used in expression position (README 'Generics' does the same for the counterpart)
         return [dict(path=p, ty=f"T{g.mark()}" + r.choice(["", "", "", "::<i32>", "::<u8>", "::<'x, u8>"]) if g.chance(0.85) else f"m::T{g.mark()}", hint=None) for p in paths]
@@ -209,10 +225,16 @@ def struct_children(g, n_cp=None):
             it.attrs.append(Instr("child_parents", "child_parents", container=c, entries=cp_entries()))
     else:
         it.attrs.append(Instr("child_parents", "child_parents", container=None, entries=cp_entries()))
-    if g.chance(0.3) and shape == "named":
-        k = g.mark()
-        # a ghost addressed by child path needs the child_parents of the counterpart it applies to
-        it.attrs.append(Instr("ghosts", "ghosts", container=(cps[0] if dedicated else None), entries=[dict(path=r.choice(paths), ident=f"g{k}", action=f"k{k}()")]))
+    if (ghost_only or g.chance(0.3)) and shape == "named":
+        # ghosts addressed by child path need the child_parents of the counterpart they apply to; several entries may address
+        # different nested structs, also ones no #[child] field maps into
+        es = []
+        for pth in (ghost_only + r.sample(paths, r.randint(0, 1))) if ghost_only else r.sample(paths, r.randint(1, min(3, len(paths)))):
+            for _ in range(r.choice([1, 1, 2])):
+                k = g.mark()
+                es.append(dict(path=pth, ident=f"g{k}", action=f"k{k}()"))
+        r.shuffle(es)
+        it.attrs.append(Instr("ghosts", "ghosts", container=(cps[0] if dedicated else None), entries=es))
     return it
 
 
@@ -336,6 +358,10 @@ def gen(g, profile=None):
     profile = profile or g.pick(["struct_basic", "struct_basic", "struct_children", "struct_parents", "enum_basic", "enum_basic", "enum_prim"])
     it = PROFILES[profile](g)
     it.meta["profile"] = profile
+    if getattr(g, "allow_unknown_p", 0.0) and g.chance(g.allow_unknown_p):
+        # only switches the "unknown instruction" messages off: a rule-abiding input means the same with and without it
+        it.attrs.insert(g.r.randint(0, len(it.attrs)), Instr("allow_unknown", "allow_unknown"))
+        it.meta["allow_unknown"] = True
     return it
 
 
